@@ -17,6 +17,8 @@ ALPHAS = {
     "aa_bzx": ("prot", gen.AA + "BZX"),
     "all_n": ("nuc", "N"),
     "all_x": ("prot", "X"),
+    "n_rich": ("nuc", None),
+    "x_rich": ("prot", None),
     "single": ("any", None),
     "lowcomp_nuc": ("nuc", None),
     "lowcomp_prot": ("prot", None),
@@ -27,6 +29,12 @@ def make_string(rng, aname, L):
     kind, alpha = ALPHAS[aname]
     if aname == "iupac_real":
         return "".join(rng.choice("RYSWKMBDHVN") if rng.random() < 0.08 else rng.choice("ACGT") for _ in range(L))
+    if aname == "n_rich":
+        fr = rng.choice([0.55, 0.7, 0.9, 0.97])
+        return "".join("N" if rng.random() < fr else rng.choice("ACGT") for _ in range(L))
+    if aname == "x_rich":
+        fr = rng.choice([0.6, 0.8, 0.95])
+        return "".join(rng.choice("XXXXUJO") if rng.random() < fr else rng.choice(gen.AA) for _ in range(L))
     if aname == "single":
         return rng.choice("ACGTNWLKEXB") * L
     if aname == "lowcomp_nuc":
@@ -111,11 +119,14 @@ def run(ck, tier):
     rng = ck.rng
     cases = []
     budget = 120000 if tier == "quick" else 700000
-    ncases = int((45 if tier == "quick" else 700) * sc)
+    ncases = int((80 if tier == "quick" else 900) * sc)
     names = list(ALPHAS)
     # systematic part: every alphabet once at a moderate size, every length and every copy count once
     for a in names:
         cases.append((a, rng.choice([17, 64, 200]), rng.choice([2, 3, 4, 9])))
+    for a in ("all_n", "all_x", "n_rich", "x_rich"):
+        for (L, k) in [(30, 2), (30, 6), (64, 9), (200, 16), (13, 50), (3, 3)]:
+            cases.append((a, L, k))
     for L in LENGTHS:
         cases.append((rng.choice(names), L, rng.choice([2, 3, 4]) if L > 1000 else rng.choice([2, 3, 9, 50])))
     for k in COPIES:
@@ -129,7 +140,7 @@ def run(ck, tier):
         cases.append((a, L, k))
     jobs = [(a, L, k, rng.choice([1, 2, 3, 4, 7, 8, 12, 16]), i) for i, (a, L, k) in enumerate(cases)]
     common.pmap(lambda j: run_case(ck, paths, *j), jobs, workers=12)
-    ck.rule = ("k copies of one string (alphabets: ACGT, +N, +U, realistic and uniform IUPAC, 20 amino acids, +B/Z/X, all-N, all-X, one letter repeated, "
+    ck.rule = ("k copies of one string (alphabets: ACGT, +N, +U, realistic and uniform IUPAC, 20 amino acids, +B/Z/X, all-N, all-X, N-rich (55..97% N), X-rich (60..95% X/U/J/O), one letter repeated, "
                "low-complexity repeats; lengths 1..5000 incl. 499/500/501; copies 2..500 incl. 99/100/101) aligned with every type admissible for the kind "
                "kalign detects plus 'undefined', default penalties, 1..16 threads; each row must equal the input string. Distinct = (alphabet, length, copies, string).")
     ck.assumptions = ["default penalties only (with user penalties of 0 gapped alignments tie with the diagonal)", "kind as detected by kalign_read_input"]
